@@ -208,10 +208,11 @@ def part_b(ck, tier):
         cases.append(default_case(to_ebnf(g), texts, label=name))
     # the start offset of a rule is the offset after ALL leading whitespace and comments (the skip is a fixpoint over whitespace,
     # end-of-line comments and block comments, whatever their order)
-    pieces = [' ', '\n', '(*c*)', '#d\n', '(*c*)#d\n', '#d\n(*c*)', ' (*c*) #d\n ', '(*c*)(*e*)', '#d\n#f\n']
+    pieces = [' ', '\n', '(*c*)', '#d\n', '(*c*)#d\n', '#d\n(*c*)', ' (*c*) #d\n ', '(*c*)(*e*)', '#d\n#f\n',
+              '(**) ', '#\n ', '(**)\n#\n ']              # comments with an empty body
     ctexts = []
     for g1 in pieces:
-        for g2 in pieces[:7]:
+        for g2 in pieces[:7] + pieces[9:10]:
             ctexts += [list(g1 + 'a' + g2 + 'b'), list('a' + g1 + 'b' + g2 + '+'), list(g1 + 'a')]
     ctexts = [list(x) for x in dict.fromkeys(''.join(t) for t in ctexts)]
     for name in ('flat', 'nested', 'list', 'token-rule'):
@@ -225,6 +226,11 @@ def part_b(ck, tier):
         jobs.add(g, cfg, ctexts)
         cases.append(default_case(to_ebnf(g), ctexts, label=name + '/comments/buffer', buffer=True,
                                   settings={'eol_comments': r'(?m)#.*?$', 'comments': r'\(\*.*?\*\)'}))
+        # comment patterns written with a capture group around the comment's text, as TatSu's own grammar writes them
+        for buf in (False, True):
+            jobs.add(g, cfg, ctexts)
+            cases.append(default_case(to_ebnf(g), ctexts, label=name + '/comments-captured' + ('/buffer' if buf else ''), buffer=buf,
+                                      settings={'eol_comments': r'(?m)#([^\n]*?)$', 'comments': r'\(\*((?:.|\n)*?)\*\)'}))
     r, spec = run_oracle(jobs)
     ck.add_tlc(r, 'PegSemBatch(parseinfo)')
     impl = run_impl(cases, fn=run_pi_case, chunk=1)
